@@ -33,7 +33,7 @@ func (w *vWorld) symNodes(prefix string, g, N int, classes []int, symCordon bool
 		var taintAge int64
 		switch class {
 		case tcEsc, tcEscAndForce:
-			taintAge = verifInt(is+".taintAge", -60, 2000)
+			taintAge = verifInt(is+".taintAge", w.minTaintAge, 2000)
 		}
 		createAge := int64(5000 + 100*i)
 		if symCreate {
